@@ -120,7 +120,9 @@ CHECKS["C07"] = dict(
 CHECKS["C11"] = dict(
     text="Lean 4: over the explicit process-wide state (FILLER counter, atomic-type set) every operation's output from any reachable state "
          "equals its output from the initial state (step_out_independent), hence probe_history_independent for every history; the pinned "
-         "commit's behaviour is machine-refuted (D15, D16). The model's completeness is tied by a STATE INVENTORY extracted from the source "
+         "commit's behaviour is machine-refuted (D15, D16). Per-object state: ONE LocationMaker over any history of records lays out every "
+         "record as a fresh maker does (walkM_stale by mutual induction, maker_reuse_sizes, maker_reuse_lookup; LAY maker correspondence, "
+         "operation makerreuse on the real code). The model's completeness is tied by a STATE INVENTORY extracted from the source "
          "each run (every module/class-level object, every statement mutating process-wide state) which must equal the reviewed one, and by "
          "three-way comparison: probe after a random history in a long-lived interpreter / same probe in a fresh interpreter / model.",
     note="Trusted: Lean kernel; the inventory scanner (extract.py) and its reviewed output (Tie/Pinned.lean); documents and loaded schemas are "
